@@ -545,3 +545,76 @@ theorem sqL2DiagProx_minimises_cplx {scale lam : K} (hc : 0 ≤ (1 + 1) * scale 
 end cplxdiag
 
 end Scico.ProxCalc
+
+namespace Scico.ProxCalc
+open Scico Scico.FuncEval
+
+/-- **keyword arguments are forwarded verbatim through every nesting**: whoever receives keyword arguments
+    in a `prox` call of a tree receives exactly the caller's dictionary -/
+theorem kwPlan_forward {α κ : Type} [Add α] [Sub α] [Mul α] [Div α] [Neg α] [Zero α] [One α] [LT α] [DecidableLT α]
+    [HasSqrt α] (E : Env α) : ∀ (t : Fn α) (kw : κ) (c : (Nat ⊕ Nat) × κ), c ∈ kwPlan E t kw → c.2 = kw := by
+  intro t
+  induction t with
+  | leaf i => intro kw c h; simp only [kwPlan] at h; split at h <;> simp_all
+  | scaled s f ih => intro kw c h; exact ih kw c h
+  | sum f g _ _ => intro kw c h; simp [kwPlan] at h
+  | snil => intro kw c h; simp [kwPlan] at h
+  | scons f r ihf ihr =>
+    intro kw c h
+    simp only [kwPlan, List.mem_append] at h
+    rcases h with h | h
+    · exact ihf kw c h
+    · exact ihr kw c h
+  | lossNone y A s => intro kw c h; simp [kwPlan] at h
+  | loss y A f s ih =>
+    intro kw c h
+    simp only [kwPlan] at h
+    split at h
+    · exact ih kw c h
+    · simp at h
+  | sqL2 y A w s =>
+    intro kw c h
+    cases A <;> simp_all [kwPlan]
+
+end Scico.ProxCalc
+
+namespace Scico.ProxCalc
+open Scico Scico.FuncEval
+
+section sepplain
+variable {α : Type} [Add α] [Sub α] [Mul α] [Div α] [Neg α] [Zero α] [One α] [LT α] [DecidableLT α] [HasSqrt α]
+
+/-- `zip` semantics: on `k` functionals and `m` slices the code acts as the separable functional of the first
+    `min(k, m)` functionals on the block array of the first `min(k, m)` slices -/
+theorem evalZip_eq (E : Env α) : ∀ (fs : List (Fn α)) (rows : List (List α)),
+    evalZip E fs rows = eval E (Fn.sep (fs.take (min fs.length rows.length))) (.blk (rows.take (min fs.length rows.length)))
+  | [], rows => by simp [evalZip, Fn.sep, eval]
+  | f :: fs, [] => by simp [evalZip, Fn.sep, eval]
+  | f :: fs, r :: rs => by
+    have ih := evalZip_eq E fs rs
+    have e : min (f :: fs).length (r :: rs).length = min fs.length rs.length + 1 := by
+      simp only [List.length_cons]; omega
+    rw [e]
+    simp only [evalZip, List.take_succ_cons, Fn.sep, eval, ih]
+
+theorem proxZip_eq (E : Env α) : ∀ (fs : List (Fn α)) (rows : List (List α)) (lam : α),
+    (proxZip E fs rows lam).map Arg.blk =
+      prox E (Fn.sep (fs.take (min fs.length rows.length))) (.blk (rows.take (min fs.length rows.length))) lam
+  | [], rows, lam => by simp [proxZip, Fn.sep, prox, Except.map]
+  | f :: fs, [], lam => by simp [proxZip, Fn.sep, prox, Except.map]
+  | f :: fs, r :: rs, lam => by
+    have ih := proxZip_eq E fs rs lam
+    have e : min (f :: fs).length (r :: rs).length = min fs.length rs.length + 1 := by
+      simp only [List.length_cons]; omega
+    rw [e]
+    simp only [proxZip, List.take_succ_cons, Fn.sep, prox, ← ih]
+    cases prox E f (.arr r) lam with
+    | error e => rfl
+    | ok p =>
+      cases proxZip E fs rs lam with
+      | error e => rfl
+      | ok ps => cases p <;> rfl
+
+end sepplain
+
+end Scico.ProxCalc
